@@ -364,7 +364,8 @@ def run(ctx):
             rows.append(dict(id=rid, kind='race', marker='unset', crash=False, upload=True, mode='on', token=tok, localOK=True, calls=1, dbg='absent',
                              leak=False, appCrash=False, startFail='none', markerText='', markerSet=False, modeKind='text', modeText='on 2020-01-01',
                              tokenKind=tv['kind'], tokenAge=tv['age'], localKind='exists', cfgVia='xdg', fancy=False, upvarText='unset', cfgUpload=True,
-                             entry='start', hold=False, n=ctx.pick(6, 10), silent=False, shapes={'token': tv}))
+                             entry='start', hold=False, n=ctx.pick(6, 10), silent=False, shapes={'token': tv},
+                             asof=['', '+192h', '+25h', '-192h'][k % 4]))   # Config.UploadStartTime of every starter: the 24 hours are real time
     unused = dealer.total() - len(dealer.used)
     ctx.cov['shapes_enumerated'] = dealer.total()
     ctx.cov['shapes_executed'] = len(dealer.used)
